@@ -146,6 +146,8 @@ class ModuleImports:
         result.extend(after_removing[first_non_blank:first_import])
         # Writing imports
         sorted_imports = sorted(imports, key=self._get_location)
+        if sorted_imports and result and not result[-1].endswith("\n"):
+            result[-1] += "\n"
         for stmt in sorted_imports:
             if stmt != sorted_imports[0]:
                 result.append("\n" * stmt.blank_lines)
@@ -324,6 +326,9 @@ class ModuleImports:
             lineno = self.pymodule.logical_lines.logical_line_in(first_line)[0]
         else:
             lineno = self.pymodule.lines.length()
+            if self.pymodule.lines.get_line(lineno).strip():
+                # the last line has no line end; the imports go after it
+                lineno += 1
 
         return lineno - _count_blank_lines(
             self.pymodule.lines.get_line, lineno - 1, 1, -1
